@@ -502,10 +502,47 @@ func checkC12(c *Ctx) error {
 	}
 	c.Set("max_run_ms", int(maxDur/time.Millisecond))
 	c12OutputKinds(c)
+	c12Terminals(c)
 	if c.Thorough() || os.Getenv("VERIF_C12_FUZZ") != "" {
 		return c12NativeFuzz(c, corpus)
 	}
 	return nil
+}
+
+// c12Terminals: standard output is a terminal of some width (a CI log viewer, a split pane, a watch window). The size of the window is
+// no input of the build: same exit status as with a file, no panic.
+func c12Terminals(c *Ctx) {
+	w := c.W
+	good := "meta:\n  pkg: gen\nparameters:\n  a: 1\n  b: \"%a%-%a%\"\nservices:\n  s:\n    value: \"Global\"\n"
+	bad := "parameters:\n  a: \"%b%\"\n  b: \"%a%\"\nservices:\n  s:\n    value: \"Global\"\n    arguments: [\"%nope%\"]\n"
+	for _, cols := range []int{0, 1, 8, 20, 24, 30, 40, 59, 60, 61, 80, 200, 65535} {
+		for yi, y := range []string{good, bad} {
+			for _, flags := range [][]string{{}, {"--ignore-missing-params"}, {"--stub", "--ignore-missing-services"}} {
+				dir := w.TempDir("c12t")
+				_ = work.WriteFile(filepath.Join(dir, "in.yaml"), []byte(y))
+				args := append([]string{"build", "-i", "in.yaml", "-o", "out.go"}, flags...)
+				res, ok := work.RunPty(w.Bin, dir, w.SaneEnv(), 120*time.Second, cols, 24, args...)
+				if !ok {
+					c.Add("terminal_runs_skipped_no_pseudo_terminal", 1)
+					continue
+				}
+				c.Add("runs_with_stdout_on_a_terminal", 1)
+				c.Eval(fmt.Sprintf("terminal:%d:%d:%v", cols, yi, flags), true)
+				d2 := w.TempDir("c12t")
+				_ = work.WriteFile(filepath.Join(d2, "in.yaml"), []byte(y))
+				ref := cli.Do(w, "", nil, d2, "", args...)
+				files := map[string]string{"input/in.yaml": y, "args.txt": strings.Join(args, " "), "terminal.txt": fmt.Sprintf("%d columns x 24 rows", cols), "stdout.txt": res.Stdout, "stderr.txt": res.Stderr}
+				switch {
+				case res.TimedOut:
+					c.Violate("hang", fmt.Sprintf("standard output on a terminal of %d columns: the run did not end", cols), files)
+				case rePanic.MatchString(res.Stderr) || strings.Contains(res.Stdout, "panic:"):
+					c.Violate("panic:"+panicSite(res.Stderr), fmt.Sprintf("standard output on a terminal of %d columns: the tool panicked\n%s", cols, firstLines(res.Stderr, 25)), files)
+				case res.Exit != ref.Res.Exit:
+					c.Violate("terminal-changes-exit-status", fmt.Sprintf("standard output on a terminal of %d columns: exit %d, with a file %d", cols, res.Exit, ref.Res.Exit), files)
+				}
+			}
+		}
+	}
 }
 
 // c12OutputKinds: the value of -o is as arbitrary as the inputs. A named pipe somebody reads from (what `-o >(gofmt)` or
